@@ -54,6 +54,15 @@ impl Ref {
 #[kani::proof]
 #[kani::unwind(8)]
 fn c17_q_counter_step() {
+    counter_step(false)
+}
+//# funcs=Counter::{restart,reset,update,pause,limit_reached,timeout_occurred,until_timeout}; bound=the same step from states whose start lies less than 2 periods back ALSO when the counter is paused (a counter paused for up to 5 periods): in the harness above a paused counter may be arbitrarily old, so a change that makes a paused counter count shows there only as a failed unwinding assertion (inconclusive); here it is a counter-example; stubs=none (virtual clock hook H2)
+#[kani::proof]
+#[kani::unwind(8)]
+fn c17_q_counter_step_recent() {
+    counter_step(true)
+}
+fn counter_step(recent: bool) {
     let t: u64 = kani::any();
     let n: u32 = kani::any();
     kani::assume(t >= 1 && t <= (1 << 20) && n >= 1 && n <= 4);
@@ -65,7 +74,7 @@ fn c17_q_counter_step() {
     kani::assume(count <= n);
     let occurred: bool = kani::any();
     let paused: bool = kani::any();
-    kani::assume(paused || last - start < 2 * t);
+    kani::assume((paused && !recent) || last - start < 2 * t);
     // ghost: running (unpaused) time since the last reset that no counted expiration has consumed yet.
     // Invariant J: a running counter has not yet consumed the time since `start`.
     let mut credit: u64 = kani::any();
